@@ -30,9 +30,9 @@ func (appleP AppleCTPolicy) LogsByGroup(cert *x509.Certificate, approved *loglis
 	switch m := lifetimeInMonths(cert); {
 	case m < 15:
 		incCount = 2
-	case m <= 27:
+	case !lifetimeExceedsMonths(cert, 27):
 		incCount = 3
-	case m <= 39:
+	case !lifetimeExceedsMonths(cert, 39):
 		incCount = 4
 	default:
 		incCount = 5
